@@ -245,9 +245,13 @@ class ComputeGraph(MultiDiGraph):
         elif backend == 'matlab':
             from pyrates.backend.matlab import MatlabBackend
             backend = MatlabBackend
-        else:
+        elif backend is None or backend in ('default', 'numpy'):
             from pyrates.backend.base import BaseBackend
             backend = BaseBackend
+        else:
+            from pyrates.backend import PyRatesException
+            raise PyRatesException(f"Unknown backend `{backend}`. Available backends: 'default' (or 'numpy'), 'torch', "
+                                   f"'jax', 'fortran', 'julia', 'matlab'.")
 
         # backend-related attributes
         self.backend = backend(**kwargs)
